@@ -21,6 +21,7 @@ Connection.origin. The loser's clean-up cannot disturb the winner (C04.2d / C04.
 start only from the application's ConnectRequest and the periodic connectivity check, never from a connection ending.
 Decides the table and its wiring for all paths; convergence over time is dynamic.
 The exit path of the connection handler (where the loser of a tie-break ends) contains no panic-capable construct.
+Neither does the peer-map code it runs there (C06.1a re-evaluated), and no finished handshake is lost before registration (the manager's join arms are the JoinSets' own join_next, C08.2 re-evaluated).
 """
 TRUSTED = ["derived Ord on PeerId([u8;32]) is a total order shared by both sides"]
 NOT_DECIDED = ["quiescence ('no further events once the network is quiet')", "RPC success after convergence",
